@@ -143,7 +143,27 @@ func uriTwin(r *common.Rand, g *common.Gen, a enc.Name) enc.Name {
 	}
 	i := r.Intn(len(b))
 	c := b[i]
-	switch r.Intn(4) {
+	switch r.Intn(6) {
+	case 4:
+		g.Stat("twin-generic-spells-tlv")
+		// a generic component whose value is the TLV encoding of the typed one, or the typed component
+		// a generic value encodes
+		if c.Typ == 8 {
+			if t, err := safeComponentFromBytes(c.Val); err == nil && len(t.Bytes()) == len(c.Val) {
+				b[i] = t.Clone()
+			} else if len(c.Val) < 200 {
+				b[i] = enc.Component{Typ: 8, Val: c.Bytes()}
+			}
+		} else if len(c.Val) < 200 {
+			b[i] = enc.Component{Typ: 8, Val: c.Bytes()}
+		}
+	case 5:
+		g.Stat("twin-same-value-other-type")
+		if c.Typ == 8 {
+			b[i].Typ = enc.TLNum(common.Pick(r, []uint64{1, 2, 9, 32, 0x32, 0x36, 253, 65536}))
+		} else {
+			b[i].Typ = 8
+		}
 	case 0:
 		g.Stat("twin-number-width")
 		v := uint64(0)
@@ -183,6 +203,16 @@ func uriTwin(r *common.Rand, g *common.Gen, a enc.Name) enc.Name {
 		}
 	}
 	return b
+}
+
+// safeComponentFromBytes: the generator must not die on what the decoder does with arbitrary bytes
+func safeComponentFromBytes(b []byte) (c enc.Component, err error) {
+	defer func() {
+		if recover() != nil {
+			err = fmt.Errorf("panic")
+		}
+	}()
+	return enc.ComponentFromBytes(b)
 }
 
 var uriSeeds = []string{
